@@ -310,6 +310,9 @@ RESOLVER_SEQS = [
     [op_single(), op_mst("kruskal", "carve"), op_multi(4)],
     [op_single(), op_mst("boruvka", "carve"), op_single()],
     [op_pflood(), op_single(), op_mst("kruskal", "carve")],
+    # the multi-threaded router behind / in front of a resolver (its own code path for every node)
+    [op_pflood(), op_single(3)],
+    [op_single(2), op_mst("kruskal", "carve"), op_single(4)],
     [op_single(), op_mst("kruskal", "basic"), op_multi(4)],       # known finding F14 (basic, then a router)
     [op_single(), op_mst("boruvka", "basic"), op_single()],
 ]
